@@ -30,7 +30,7 @@ def grid_prog(tick, periods, orders, bid=None):
         # after `when` recurs, rebid run with a new period for target (period change by a bid)
         fr["preacts"].append(["go", [["recurred", ">=", when]], "f1"])
         f1 = {"name": "f1", "over": None, "under": None, "beacts": [],
-              "enacts": [["rec", 900 + who], ["bid", "run", ["m%d" % target], newp]],
+              "enacts": [["rec", 900 + who], ["bid", "run", ["m%d" % target], newp]],   # recorder announces the bid
               "renacts": [], "preacts": [], "reacts": [["rec", 950 + who]], "exacts": [], "rexacts": [], "auxes": []}
         fms[who]["frames"].append(f1)
     return {"tick": tick, "nvars": 1, "framers": fms}
@@ -88,6 +88,59 @@ def period_statement(prog, ob, maxticks):
     return None
 
 
+def replay_statement(prog, ob):
+    """replay of the due test on the implementation's trace alone, with period changes: every scheduler send
+    must go to a tasker that is due (retime <= stamp), every due live tasker must be sent in that tick, and after
+    a run retime advances by the period the tasker has at that moment (a bid's period applies from the next
+    reschedule).  Bids are announced by the recorder placed in front of them (tags 900+who in grid programs)."""
+    ix = kernel.Index(prog)
+    order = ix.taskables(prog)
+    tick = prog["tick"]
+    stamps, s = [], 0.0
+    for _ in range(4096):
+        stamps.append(s)
+        s += tick
+    period = {ix.tid[fm["name"]]: abs(fm["period"]) for fm in prog["framers"]}
+    retime = {t: 0.0 for t in order}
+    alive = set(order)
+    bids = {}
+    for fm in prog["framers"]:
+        for fr in fm["frames"]:
+            acts = fr.get("enacts", [])
+            for i in range(len(acts) - 1):
+                if acts[i][0] == "rec" and acts[i + 1][0] == "bid" and acts[i + 1][3] is not None \
+                        and acts[i + 1][1] not in ("stop", "abort"):
+                    bids[acts[i][1]] = ([ix.tid[n] for n in acts[i + 1][2]], max(0.0, acts[i + 1][3]))
+    last_tick = max([e[1] for e in ob["trace"]] or [0])
+    sent = {}
+    for e in ob["trace"]:
+        if e[0] == "rec":
+            if e[2] in bids:
+                for t in bids[e[2]][0]:
+                    period[t] = bids[e[2]][1]
+            continue
+        tk, t, c, r = e[1], e[2], e[3], e[4]
+        if t not in retime:
+            continue
+        if tk == last_tick and c == 3:
+            continue            # the final sweep
+        if t not in alive:
+            return "tasker %d sent control %d at tick %d after it had aborted" % (t, c, tk)
+        if retime[t] > stamps[tk]:
+            return "tasker %d ran at tick %d (stamp %r) before its retime %r" % (t, tk, stamps[tk], retime[t])
+        # every earlier tick at which it was due must have had a send
+        j = sent.get(t, -1) + 1
+        while j < tk:
+            if not (retime[t] > stamps[j]):
+                return "tasker %d was due at tick %d (retime %r) but first ran at tick %d" % (t, j, retime[t], tk)
+            j += 1
+        sent[t] = tk
+        retime[t] = retime[t] + period[t]
+        if r == 3 or r is None:
+            alive.discard(t)
+    return None
+
+
 def run(ctx):
     ctx.rule = ("(a) grid: tick period in %r x 1-3 taskers with periods from {0, tick/2, tick, 2*tick, 3*tick, 0.1, "
                 "0.15, 0.4, 0.7} in every front/mid/back placement (sampled in quick, exhaustive for <=2 taskers in "
@@ -142,6 +195,8 @@ def run(ctx):
             why = sked_statement(p, ob)
             if why is None and not any(pa for f in p["framers"] for fr in f["frames"] for pa in fr["preacts"]):
                 why = period_statement(p, ob, maxticks)
+            if why is None:
+                why = replay_statement(p, ob)
             if why:
                 return {"key": "sked:" + why.split(" ")[0], "flo": kernel.render_flo(p), "why": why,
                         "impl_trace": ob["trace"][:80], "contradicts": "C02.Props"}
